@@ -22,7 +22,7 @@ Print Assumptions C06_strlist_roundtrip.
     restriction of the real one and agrees with it whenever anything follows) *)
 Theorem C06_strlist_reencode : forall b sl rest,
   wf_bytes b -> decode_strlist_g true b = Some (sl, rest) ->
-  exists b', encode_strlist sl = Some b' /\ b = b' ++ rest /\ wf_bytes rest.
+  exists b', encode_strlist sl = Some b' /\ b = b' ++ rest /\ wf_bytes rest /\ wf_strlist sl.
 Proof. exact strlist_reencode. Qed.
 Print Assumptions C06_strlist_reencode.
 
@@ -35,7 +35,7 @@ Print Assumptions C06_block_roundtrip.
 
 Theorem C06_block_reencode : forall b rows rest,
   wf_bytes b -> decode_block_g true b = Some (rows, rest) ->
-  exists b', encode_block rows = Some b' /\ b = b' ++ rest /\ wf_bytes rest.
+  exists b', encode_block rows = Some b' /\ b = b' ++ rest /\ wf_bytes rest /\ wf_block rows.
 Proof. exact block_reencode. Qed.
 Print Assumptions C06_block_reencode.
 
